@@ -10,7 +10,7 @@ import random
 from fractions import Fraction
 
 from .. import compare, expr as E, pipeline, routinegen as G
-from ..real import walk
+from ..real import try_compile, walk
 
 LEVEL = "proof"
 
@@ -54,6 +54,15 @@ def gen(seed, extra):
         for c in n["children"]:
             stale(c)
     stale(spec)
+    if hw_name(seed) != "qubit_highwater" and rng.random() < 0.5:
+        # the derived resource has a caller-chosen name while routines also carry a (hand-written, rough) `qubit_highwater`: the derived
+        # one is computed from the children's resource of ITS OWN name
+        def rough(n):
+            if n["repetition"] is None and not any(r["name"] == "qubit_highwater" for r in n["resources"]):
+                n["resources"].append({"name": "qubit_highwater", "type": "qubits", "value": E.num(rng.randint(0, 2))})
+            for c in n["children"]:
+                rough(c)
+        rough(spec)
     return spec
 
 
@@ -137,9 +146,17 @@ def model_correspondence(cr, env, salt, res, case):
 
 
 def oracle(case, res, extra):
-    if case.status != "ok":
-        return
     HW = hw_name(case.seed)
+    if case.status != "ok":
+        # the highwater of a routine that compiles is DEFINED (a maximum over finitely many cuts): if the compilation fails only because
+        # the derived resource was asked for — under whatever name — the property fails there
+        if str(case.status).startswith("internal:") or case.status == "compilation":
+            st0, _ = try_compile(case.qref)
+            res.stats["failed_compilations_rechecked_without_derived_resources"] += 1
+            if st0 == "ok":
+                res.violation("failing-input", f"the routine compiles, but not when the highwater is derived as `{HW}`: {case.status}",
+                              {"qref": case.qref, "derived_resource_name": HW}, str(case.err)[:300], "a highwater for every node")
+        return
     cr = case.result.routine
     rng = random.Random(case.seed * 47 + 7)
     feats = set()
